@@ -20,11 +20,12 @@ R(n) == [k |-> "ref", n |-> n]
 \* Field: [id, req \in {"required","optional","default"}, t, name]
 F(id, req, t, name) == [id |-> id, req |-> req, t |-> t, name |-> name]
 Base == [
-  typedefs |-> << [name |-> "MyInt", t |-> B("i32")], [name |-> "MyInt2", t |-> R("MyInt")] >>,
+  typedefs |-> << [name |-> "MyInt", t |-> B("i32")], [name |-> "MyInt2", t |-> R("MyInt")], [name |-> "MyList", t |-> L(R("MyInt"))] >>,
   enums    |-> << [name |-> "E1", vals |-> << [name |-> "A", v |-> 1], [name |-> "B", v |-> 2] >> ] >>,
   structs  |-> << [kind |-> "struct", name |-> "S1",
                    fields |-> << F(1, "default", B("i32"), "a"), F(2, "optional", B("string"), "b"),
-                                 F(3, "required", R("E1"), "e"), F(4, "default", M(B("string"), L(R("MyInt2"))), "m") >> ],
+                                 F(3, "required", R("E1"), "e"), F(4, "default", M(B("string"), L(R("MyInt2"))), "m"),
+                                 F(5, "default", R("MyList"), "l") >> ],
                   [kind |-> "union", name |-> "U1", fields |-> << F(1, "optional", B("i32"), "x"), F(2, "optional", B("string"), "y") >> ],
                   [kind |-> "exception", name |-> "Ex1", fields |-> << F(1, "default", B("string"), "msg") >> ] >>,
   services |-> << [name |-> "Svc", extends |-> "Base0",
@@ -108,7 +109,7 @@ Edits(p) ==
        Edit(p, [p EXCEPT !.services[vi].methods = Append(@, [name |-> "fnew", oneway |-> FALSE, ret |-> <<B("i32")>>, args |-> <<>>, throws |-> <<>>])], "add-method")
   \/ \E ci \in Idx(p.scopes) : Find(p.scopes[ci].ops, "OpNew") = 0 /\
        Edit(p, [p EXCEPT !.scopes[ci].ops = Append(@, [name |-> "OpNew", t |-> B("i32")])], "add-op")
-  \/ \E ti \in Idx(p.typedefs), t \in {B("i32"), B("i64"), R("MyInt")} :
+  \/ \E ti \in Idx(p.typedefs), t \in {B("i32"), B("i64"), R("MyInt"), L(B("i32")), L(B("i64"))} :
        (t.k = "ref" => t.n # p.typedefs[ti].name) /\ Edit(p, [p EXCEPT !.typedefs[ti].t = t], "retarget-typedef")
   \/ \E ei \in Idx(p.enums) : \E vi \in Idx(p.enums[ei].vals) :
        \/ Edit(p, [p EXCEPT !.enums[ei].vals = SeqRemove(@, vi)], "remove-enum-value")
